@@ -577,20 +577,30 @@ func instrumentedSources(repo string, pkgs []*pkgOverlay, engine bool) map[strin
 				continue
 			}
 			out[src] = bytes.ReplaceAll(b, []byte(ins.anchor), []byte(ins.before+ins.anchor))
-			if !ins.nativeOnly && ins.pkgDir == p.Dir {
-				// the harness package is the instrumented package: the hook calls verifSched directly
-				hook := "package " + ins.pkgName + "\n\nfunc verifHook(l string) {\n\tif verifParam(\"blob_lock_sched\") != 0 {\n\t\tverifSched(l)\n\t}\n}\n"
-				if !engine {
-					hook = "package " + ins.pkgName + "\n\nfunc verifHook(l string) {\n\tif verifM.Params[\"blob_lock_sched\"] != 0 {\n\t\tverifSched(l)\n\t}\n}\n"
+			if ins.nativeOnly {
+				continue
+			}
+			// the hook the instrumented package calls: the harness package of the running test binary installs
+			// VerifHook; when the instrumented package hosts harnesses itself, its own verifSched is the fall-back
+			selfHosted := false
+			for _, q := range pkgs {
+				if q.Dir == ins.pkgDir {
+					selfHosted = true
 				}
-				out[filepath.Join(repo, ins.pkgDir, "zz_verif_hook.go")] = []byte(hook)
-			} else if !ins.nativeOnly {
-				hook := "package " + ins.pkgName + "\n\n// VerifHook is installed by the harness package of a native replay (verif instrumentation).\nvar VerifHook func(string)\n\nfunc verifHook(l string) {\n\tif VerifHook != nil {\n\t\tVerifHook(l)\n\t}\n}\n"
-				out[filepath.Join(repo, ins.pkgDir, "zz_verif_hook.go")] = []byte(hook)
-				if !engine {
-					inst := "package " + p.PkgName + "\n\nimport verifhooked \"" + ins.hookImport + "\"\n\nfunc init() {\n\tverifhooked.VerifHook = func(l string) {\n\t\tif verifM.Params[\"blob_lock_sched\"] != 0 {\n\t\t\tverifSched(l)\n\t\t}\n\t}\n}\n"
-					out[filepath.Join(repo, p.Dir, "zz_verif_hookinit.go")] = []byte(inst)
+			}
+			hook := "package " + ins.pkgName + "\n\n// VerifHook is installed by the harness package of a native replay (verif instrumentation).\nvar VerifHook func(string)\n\nfunc verifHook(l string) {\n\tif VerifHook != nil {\n\t\tVerifHook(l)\n\t\treturn\n\t}\n"
+			if selfHosted {
+				if engine {
+					hook += "\tif verifParam(\"blob_lock_sched\") != 0 {\n\t\tverifSched(l)\n\t}\n"
+				} else {
+					hook += "\tif verifM.Params[\"blob_lock_sched\"] != 0 {\n\t\tverifSched(l)\n\t}\n"
 				}
+			}
+			hook += "}\n"
+			out[filepath.Join(repo, ins.pkgDir, "zz_verif_hook.go")] = []byte(hook)
+			if !engine && ins.pkgDir != p.Dir {
+				inst := "package " + p.PkgName + "\n\nimport verifhooked \"" + ins.hookImport + "\"\n\nfunc init() {\n\tverifhooked.VerifHook = func(l string) {\n\t\tif verifM.Params[\"blob_lock_sched\"] != 0 {\n\t\t\tverifSched(l)\n\t\t}\n\t}\n}\n"
+				out[filepath.Join(repo, p.Dir, "zz_verif_hookinit.go")] = []byte(inst)
 			}
 		}
 	}
